@@ -1,1 +1,4 @@
+import Asn1Proofs.Properties.C01
 import Asn1Proofs.Properties.C14
+import Asn1Proofs.Properties.C15
+import Asn1Proofs.Properties.C16
